@@ -21,18 +21,8 @@ import (
 // Seeds: the 14 canonical workflows of the C09 motifs, the smoke workflow and the hostile YAML shapes.
 // It is driven by `./check C11 --tier thorough` (tools/nativefuzz.py), never by the quick tier.
 func FuzzEngineParse(f *testing.F) {
-	f.Add([]byte(smokeWF), []byte("i: 3\n"))
-	for _, mc := range vcase.Motifs() {
-		in := "{}"
-		if len(mc.InputDoc) > 0 {
-			in = vcase.RenderInputYAML(mc.InputDoc)
-		}
-		f.Add([]byte(vcase.RenderYAML(mc.Main)), []byte(in))
-	}
-	for _, shape := range vcase.YAMLShapes {
-		shape = strings.TrimPrefix(shape, "TEXT:")
-		f.Add([]byte("version: v0.2.0\ninput: "+shape+"\nsteps: "+shape+"\noutputs: "+shape+"\n"), []byte(shape))
-		f.Add([]byte(strings.Replace(smokeWF, "!expr $.input.i", shape, 1)), []byte("i: "+shape+"\n"))
+	for _, sd := range fuzzSeeds() {
+		f.Add(sd[0], sd[1])
 	}
 	f.Fuzz(func(t *testing.T, wf []byte, in []byte) {
 		if len(wf) > 1<<15 || len(in) > 1<<12 {
@@ -55,6 +45,46 @@ func FuzzEngineParse(f *testing.F) {
 			t.Fatalf("%s did not return within the watchdog", ans.HangPhase)
 		}
 	})
+}
+
+// fuzzSeeds is the seed corpus, in the order in which the fuzzer numbers it (seed#0, seed#1, ...).
+func fuzzSeeds() [][2][]byte {
+	var out [][2][]byte
+	add := func(wf, in string) { out = append(out, [2][]byte{[]byte(wf), []byte(in)}) }
+	add(smokeWF, "i: 3\n")
+	for _, mc := range vcase.Motifs() {
+		in := "{}"
+		if len(mc.InputDoc) > 0 {
+			in = vcase.RenderInputYAML(mc.InputDoc)
+		}
+		add(vcase.RenderYAML(mc.Main), in)
+	}
+	for _, shape := range vcase.YAMLShapes {
+		shape = strings.TrimPrefix(shape, "TEXT:")
+		add("version: v0.2.0\ninput: "+shape+"\nsteps: "+shape+"\noutputs: "+shape+"\n", shape)
+		add(strings.Replace(smokeWF, "!expr $.input.i", shape, 1), "i: "+shape+"\n")
+	}
+	return out
+}
+
+// TestFuzzSeedToCase writes seed number VERIF_FUZZ_SEED as a C11 replay case (a seed that fails or
+// kills the process is not saved by the fuzzer itself).
+func TestFuzzSeedToCase(t *testing.T) {
+	nr := os.Getenv("VERIF_FUZZ_SEED")
+	if nr == "" {
+		t.Skip("conversion helper")
+	}
+	n, err := strconv.Atoi(nr)
+	seeds := fuzzSeeds()
+	if err != nil || n < 0 || n >= len(seeds) {
+		t.Fatalf("no such seed %q", nr)
+	}
+	pc := &ParseCase{Class: "native-fuzz", Desc: "seed corpus entry " + nr + " of FuzzEngineParse",
+		Files: map[string]string{"workflow.yaml": string(seeds[n][0])}, WorkflowFile: "workflow.yaml", Input: string(seeds[n][1]), NonTrivial: true}
+	out, _ := json.MarshalIndent(map[string]any{"property": "C11", "message": pc.Desc, "case": pc}, "", " ")
+	if err := os.WriteFile(os.Getenv("VERIF_FAIL_OUT"), out, 0o644); err != nil {
+		t.Fatal(err)
+	}
 }
 
 func init() {
